@@ -1573,22 +1573,17 @@ Proof.
 Qed.
 
 Lemma read_loop_ok f n co rq s : Inv2 s -> reading s co ->
-  safe (read_loop cf f n co rq) s (fun _ s' => Inv2 s').
+  safe (read_loop cf f n co rq) s (fun _ s' => Inv2 s' /\ reading s' co).
 Proof.
   pose proof (all_specs f) as IH.
   revert co rq s. induction n as [|n IHn]; intros co rq s [I St] R; simpl; [apply safe_fail|].
-  destruct R as [c [Hc Hrd]].
+  pose proof R as [c [Hc Hrd]].
   apply safe_bind. eapply safe_get_conn; [exact (inv_heap _ _ I)|exact Hc|].
   apply safe_bind. apply safe_peek. apply safe_bind. apply safe_peek2.
   rewrite fx_connread_true.
-  (* leaving the loop: reading := false *)
-  assert (Leave : safe (store co (CConn (set_c_reading false c));; ret rq) s (fun _ s' => Inv2 s')).
-  { apply safe_bind. eapply safe_store; [exact (inv_heap _ _ I)|exact Hc|].
-    destruct (store_conn_flags_ok2 s co c (set_c_reading false c) (conj I St) Hc eq_refl eq_refl) as [I1 _].
-    - simpl. intros H. exact (inv_closed _ _ I _ _ Hc H).
-    - simpl. intros H. destruct (inv_conns _ _ I) as [_ Hcc]. destruct (Hcc _ H) as [c0 [Hc0 Hcl]].
-      rewrite Hc in Hc0. inversion Hc0; subst. exact Hcl.
-    - apply safe_ret. exact I1. }
+  (* leaving the loop: the flag stays *)
+  assert (Leave : safe (ret rq) s (fun _ s' => Inv2 s' /\ reading s' co)).
+  { apply safe_ret. split; [split; auto|exact R]. }
   destruct (hd_error (st_tape s)) as [e|]; [|exact Leave].
   destruct e; try exact Leave.
   - (* TM *)
@@ -1602,23 +1597,16 @@ Proof.
     intros rq' s2 [[I2 St2] [c2 [Hc2 Hrd2]]].
     apply safe_bind. eapply safe_get_conn; [exact (inv_heap _ _ I2)|exact Hc2|].
     destruct (c_closed c2) eqn:Ecl.
-    + destruct (inv_closed _ _ I2 _ _ Hc2 Ecl) as [Hn Hq].
-      apply safe_bind. eapply safe_free; [exact (inv_heap _ _ I2)|exact Hc2|].
-      destruct (free_conn_ok s2 co c2 I2 Hc2 Hq Hn) as [I3 [_ [Ell3 _]]]. apply safe_ret. split; [exact I3|].
-      exact (stable_sim s2 _ Ell3 (sim_free_conn _ _ _ Hc2) St2).
+    + apply safe_ret. split; [split; auto|exists c2; auto].
     + apply IHn; [split; auto|]. exists c2; auto.
   - (* TS: a connection error if TX follows *)
     destruct (hd_error (tl (st_tape s))) as [e2|]; [|exact Leave].
     destruct e2; try exact Leave.
     destruct (negb (Nat.eqb sock (c_sock c))); [exact Leave|].
-    apply safe_bind. eapply safe_store; [exact (inv_heap _ _ I)|exact Hc|].
-    destruct (store_conn_flags_ok2 s co c (set_c_reading false c) (conj I St) Hc eq_refl eq_refl) as [[I1 St1] Hc1].
-    { simpl. intros H. exact (inv_closed _ _ I _ _ Hc H). }
-    { simpl. intros H. destruct (inv_conns _ _ I) as [_ Hcc]. destruct (Hcc _ H) as [c0 [Hc0 Hcl]].
-      rewrite Hc in Hc0. inversion Hc0; subst. exact Hcl. }
     apply safe_bind.
-    eapply safe_mono; [apply (sp_handle_conn_error _ IH co true st _ _ I1 Hc1)|].
-    intros [] s2 [I2 F2]. apply safe_ret. split; [exact I2|exact (stable_frame _ _ _ St1 F2)].
+    eapply safe_mono; [apply (sp_handle_conn_error _ IH co true st _ _ I Hc)|].
+    intros [] s2 [I2 F2]. apply safe_ret. split; [split; [exact I2|exact (stable_frame _ _ _ St F2)]|].
+    exact (reading_frame _ _ _ _ R F2).
 Qed.
 
 Lemma flush_requeue_ok f rq s : Inv2 s -> safe (flush_requeue cf f rq) s (fun _ s' => Inv2 s').
@@ -1631,6 +1619,40 @@ Proof.
     apply safe_bind. eapply safe_mono; [apply (sp_send_query _ IH qo s I Hl)|].
     intros z s1 [I1 F1]. apply safe_ret. apply IHr. split; [exact I1|exact (stable_frame _ _ _ St F1)].
   - apply safe_ret. apply IHr. split; auto.
+Qed.
+
+(* the connection that is being read survives the requeue flush *)
+Lemma flush_requeue_reading f rq co s : Inv2 s -> reading s co ->
+  safe (flush_requeue cf f rq) s (fun _ s' => Inv2 s' /\ reading s' co).
+Proof.
+  pose proof (all_specs f) as IH.
+  revert s. induction rq as [|qid rest IHr]; intros s [I St] R; simpl; [apply safe_ret; split; [split|]; auto|].
+  apply safe_bind. apply safe_get. apply safe_bind.
+  destruct (lookup qid (st_byqid s)) as [qo|] eqn:Lk.
+  - destruct (inv_byqid _ _ I _ _ Lk) as [Hl _].
+    apply safe_bind. eapply safe_mono; [apply (sp_send_query _ IH qo s I Hl)|].
+    intros z s1 [I1 F1]. apply safe_ret. apply IHr; [split; [exact I1|exact (stable_frame _ _ _ St F1)]|].
+    exact (reading_frame _ _ _ _ R F1).
+  - apply safe_ret. apply IHr; auto. split; auto.
+Qed.
+
+(* read_answers is done with the connection: release it if it was closed meanwhile *)
+Lemma read_done_ok s co : Inv2 s -> reading s co ->
+  safe (let! c := get_conn co in if c_closed c then free_obj co else store co (CConn (set_c_reading false c))) s
+       (fun _ s' => Inv2 s').
+Proof.
+  intros [I St] [c [Hc Hrd]].
+  apply safe_bind. eapply safe_get_conn; [exact (inv_heap _ _ I)|exact Hc|].
+  destruct (c_closed c) eqn:Ecl.
+  - destruct (inv_closed _ _ I _ _ Hc Ecl) as [Hn Hq].
+    eapply safe_free; [exact (inv_heap _ _ I)|exact Hc|].
+    destruct (free_conn_ok s co c I Hc Hq Hn) as [I3 [_ [Ell3 _]]]. split; [exact I3|].
+    exact (stable_sim s _ Ell3 (sim_free_conn _ _ _ Hc) St).
+  - eapply safe_store; [exact (inv_heap _ _ I)|exact Hc|].
+    destruct (store_conn_flags_ok2 s co c (set_c_reading false c) (conj I St) Hc eq_refl eq_refl) as [I1 _]; [| |exact I1].
+    + simpl. intros H. exact (inv_closed _ _ I _ _ Hc H).
+    + simpl. intros H. destruct (inv_conns _ _ I) as [_ Hcc]. destruct (Hcc _ H) as [c0 [Hc0 Hcl]].
+      rewrite Hc in Hc0. inversion Hc0; subst. exact Hcl.
 Qed.
 
 Lemma read_answers_ok f co s c : Inv2 s -> cell_of s co = Some (CConn c) -> In co (st_conns s) ->
@@ -1646,7 +1668,9 @@ Proof.
     rewrite Hc in Hc0. inversion Hc0; subst. exact Hcl. }
   apply safe_bind. eapply safe_mono; [apply (read_loop_ok f f co [] _ I1)|].
   - exists (set_c_reading true c). split; auto.
-  - intros rq s2 I2. apply flush_requeue_ok. exact I2.
+  - intros rq s2 [I2 R2]. apply safe_bind.
+    eapply safe_mono; [apply (flush_requeue_reading f rq co s2 I2 R2)|].
+    intros [] s3 [I3 R3]. apply read_done_ok; auto.
 Qed.
 
 Lemma destroy_loop_ok f n s : Inv2 s ->
